@@ -7,12 +7,12 @@ import (
 	"encoding/json"
 	"flag"
 	"fmt"
-	"math/rand"
 	"os"
 	"sort"
+
 	"strings"
-	"sync"
 	"unsafe"
+	"verifsched/explore"
 
 	"verifsched/chanimpl"
 	"verifsched/gate"
@@ -34,120 +34,16 @@ type Op struct {
 }
 
 type Scenario struct {
-	ID      int      `json:"id"`
-	Caps    []int    `json:"caps"`
-	Threads [][]Op   `json:"threads"`
-	Scheds  [][]int  `json:"scheds,omitempty"` // thread-id schedules to replay (mode sched)
-	Elt     int      `json:"elt,omitempty"`    // element size (default 8)
-}
-
-type Event struct {
-	T   int    `json:"t"`
-	E   string `json:"e"` // call ret
-	Op  int    `json:"op"`
-	Sel int    `json:"sel"`           // chosen case (1-based), 0 = default / not a select
-	Val int64  `json:"val"`           // received value
-	Ok  bool   `json:"ok"`            // recvOK
-	Pan string `json:"pan,omitempty"` // panic kind
-}
-
-type Result struct {
-	ID        int               `json:"id"`
-	Execs     int               `json:"execs"`
-	Exhausted bool              `json:"exhausted"`
-	Hist      []HistRec         `json:"hist"`
-	Outcomes  map[string]int    `json:"outcomes"`
-	OutSched  map[string]string `json:"outsched"`
-	Diverged  int               `json:"diverged"`
-	StepLimit int               `json:"steplimit"`
-	Crashes   []string          `json:"crashes,omitempty"`
-}
-
-type HistRec struct {
-	Events []Event `json:"ev"`
-	End    string  `json:"end"` // finished | stuck
-	Stuck  []int   `json:"stuck,omitempty"`
-	Sched  string  `json:"sched"`
-	Count  int     `json:"n"`
-}
-
-// ---- strategies
-
-type replayStrat struct {
-	prefix []int
-	info   *stepInfo
-}
-
-type stepInfo struct {
-	threads [][]int // thread of every enabled action at each step
-	cur     []int   // thread that ran last (-1 none)
-}
-
-func (r *replayStrat) Choose(acts []gate.Action, cur *gate.Thread, step int) int {
-	ids := make([]int, len(acts))
-	for i, a := range acts {
-		ids[i] = a.T.ID
-	}
-	c := -1
-	if cur != nil {
-		c = cur.ID
-	}
-	r.info.threads = append(r.info.threads, ids)
-	r.info.cur = append(r.info.cur, c)
-	if step < len(r.prefix) {
-		return r.prefix[step]
-	}
-	// default continuation: keep running the current thread when it can move (no preemption)
-	for i, a := range acts {
-		if a.T.ID == c && !a.Spur {
-			return i
-		}
-	}
-	for i, a := range acts {
-		if !a.Spur {
-			return i
-		}
-	}
-	return 0
-}
-
-type randStrat struct {
-	r      *rand.Rand
-	sticky float64
-}
-
-func (s *randStrat) Choose(acts []gate.Action, cur *gate.Thread, step int) int {
-	if cur != nil && s.r.Float64() < s.sticky {
-		for i, a := range acts {
-			if a.T.ID == cur.ID && !a.Spur {
-				return i
-			}
-		}
-	}
-	return s.r.Intn(len(acts))
-}
-
-type schedStrat struct {
-	sched    []int
-	diverged bool
-	r        *rand.Rand
-}
-
-func (s *schedStrat) Choose(acts []gate.Action, cur *gate.Thread, step int) int {
-	if step < len(s.sched) && !s.diverged {
-		for i, a := range acts {
-			if a.T.ID == s.sched[step] && !a.Spur {
-				return i
-			}
-		}
-		s.diverged = true
-	}
-	return s.r.Intn(len(acts))
+	ID      int     `json:"id"`
+	Caps    []int   `json:"caps"`
+	Threads [][]Op  `json:"threads"`
+	Scheds  [][]int `json:"scheds,omitempty"` // thread-id schedules to replay (mode sched)
+	Elt     int     `json:"elt,omitempty"`    // element size (default 8)
 }
 
 // ---- one execution
 
-func runOnce(sc *Scenario, strat gate.Strategy, spurious int) (HistRec, *gate.Sched, gate.Outcome) {
+func runOnce(sc *Scenario, strat gate.Strategy, spurious int) (explore.HistRec, *gate.Sched, gate.Outcome) {
 	s := gate.New()
 	s.Spurious = spurious
 	gate.Cur = s
@@ -159,15 +55,15 @@ func runOnce(sc *Scenario, strat gate.Strategy, spurious int) (HistRec, *gate.Sc
 	for i, c := range sc.Caps {
 		chans[i] = chanimpl.NewChan(elt, c)
 	}
-	var events []Event
+	var events []explore.Event
 	for ti := range sc.Threads {
 		ops := sc.Threads[ti]
 		tid := ti
 		s.Go(func(t *gate.Thread) {
 			for oi := range ops {
 				op := &ops[oi]
-				events = append(events, Event{T: tid, E: "call", Op: oi})
-				ev := Event{T: tid, E: "ret", Op: oi}
+				events = append(events, explore.Event{T: tid, E: "call", Op: oi})
+				ev := explore.Event{T: tid, E: "ret", Op: oi}
 				func() {
 					defer func() {
 						if r := recover(); r != nil {
@@ -187,7 +83,7 @@ func runOnce(sc *Scenario, strat gate.Strategy, spurious int) (HistRec, *gate.Sc
 		})
 	}
 	out := s.Run(strat)
-	h := HistRec{Events: events, End: "finished", Sched: strings.Join(s.Trace, " ")}
+	h := explore.HistRec{Events: events, End: "finished", Sched: strings.Join(s.Trace, " ")}
 	if out != gate.Finished {
 		h.End = "stuck"
 		// threads whose last event is a call without ret
@@ -218,7 +114,7 @@ func classify(r any) string {
 	return "other:" + msg
 }
 
-func doOp(chans []*chanimpl.Chan, op *Op, ev *Event, elt int) {
+func doOp(chans []*chanimpl.Chan, op *Op, ev *explore.Event, elt int) {
 	switch op.K {
 	case "send":
 		v := op.V
@@ -263,127 +159,6 @@ func doOp(chans []*chanimpl.Chan, op *Op, ev *Event, elt int) {
 	}
 }
 
-// ---- exploration of one scenario
-
-func outcomeKey(sc *Scenario, h *HistRec) string {
-	per := make([][]string, len(sc.Threads))
-	for _, e := range h.Events {
-		if e.E == "ret" {
-			per[e.T] = append(per[e.T], fmt.Sprintf("%d,%d,%v,%s", e.Sel, e.Val, e.Ok, e.Pan))
-		}
-	}
-	var sb strings.Builder
-	for t := range per {
-		sb.WriteString(strings.Join(per[t], ";"))
-		sb.WriteString("|")
-	}
-	sb.WriteString(h.End)
-	for _, t := range h.Stuck {
-		fmt.Fprintf(&sb, ",%d", t)
-	}
-	return sb.String()
-}
-
-func histKey(h *HistRec) string {
-	b, _ := json.Marshal(h.Events)
-	return string(b) + h.End + fmt.Sprint(h.Stuck)
-}
-
-func explore(sc *Scenario, mode string, budget, pb, spurious int, seed int64, maxHist int) Result {
-	res := Result{ID: sc.ID, Outcomes: map[string]int{}, OutSched: map[string]string{}}
-	seen := map[string]int{}
-	record := func(h HistRec, s *gate.Sched, out gate.Outcome) {
-		res.Execs++
-		if out == gate.StepLimit {
-			res.StepLimit++
-		}
-		res.Crashes = append(res.Crashes, s.Crashes...)
-		ok := outcomeKey(sc, &h)
-		if _, dup := res.Outcomes[ok]; !dup {
-			res.OutSched[ok] = h.Sched
-		}
-		res.Outcomes[ok]++
-		k := histKey(&h)
-		if i, dup := seen[k]; dup {
-			res.Hist[i].Count++
-		} else if len(res.Hist) < maxHist {
-			seen[k] = len(res.Hist)
-			h.Count = 1
-			res.Hist = append(res.Hist, h)
-		}
-	}
-	switch mode {
-	case "dfs":
-		prefix := []int{}
-		for res.Execs < budget {
-			info := &stepInfo{}
-			st := &replayStrat{prefix: prefix, info: info}
-			h, s, out := runOnce(sc, st, spurious)
-			choices, widths := s.Choices, s.Widths
-			s.Abandon()
-			record(h, s, out)
-			// preemptions used along the taken path, up to each step
-			pre := make([]int, len(choices)+1)
-			for j := range choices {
-				p := 0
-				if info.cur[j] >= 0 && info.threads[j][choices[j]] != info.cur[j] && contains(info.threads[j], info.cur[j]) {
-					p = 1
-				}
-				pre[j+1] = pre[j] + p
-			}
-			// backtrack: last step with an untried alternative within the preemption bound
-			next := -1
-			alt := 0
-			for j := len(choices) - 1; j >= 0 && next < 0; j-- {
-				for a := choices[j] + 1; a < widths[j]; a++ {
-					p := 0
-					if info.cur[j] >= 0 && info.threads[j][a] != info.cur[j] && contains(info.threads[j], info.cur[j]) {
-						p = 1
-					}
-					if pb < 0 || pre[j]+p <= pb {
-						next, alt = j, a
-						break
-					}
-				}
-			}
-			if next < 0 {
-				res.Exhausted = true
-				break
-			}
-			prefix = append(append([]int{}, choices[:next]...), alt)
-		}
-	case "random":
-		r := rand.New(rand.NewSource(seed + int64(sc.ID)*7919))
-		for i := 0; i < budget; i++ {
-			st := &randStrat{r: r, sticky: []float64{0, 0.5, 0.8}[i%3]}
-			h, s, out := runOnce(sc, st, spurious)
-			s.Abandon()
-			record(h, s, out)
-		}
-	case "sched":
-		r := rand.New(rand.NewSource(seed))
-		for _, sch := range sc.Scheds {
-			st := &schedStrat{sched: sch, r: r}
-			h, s, out := runOnce(sc, st, spurious)
-			s.Abandon()
-			if st.diverged {
-				res.Diverged++
-			}
-			record(h, s, out)
-		}
-	}
-	return res
-}
-
-func contains(l []int, x int) bool {
-	for _, y := range l {
-		if y == x {
-			return true
-		}
-	}
-	return false
-}
-
 func main() {
 	in := flag.String("in", "", "scenarios ndjson")
 	out := flag.String("out", "", "results ndjson")
@@ -410,8 +185,6 @@ func main() {
 	defer of.Close()
 	w := bufio.NewWriter(of)
 	defer w.Flush()
-	var mu sync.Mutex
-	_ = mu
 	sc := bufio.NewScanner(f)
 	sc.Buffer(make([]byte, 1<<20), 1<<26)
 	idx := 0
@@ -426,7 +199,10 @@ func main() {
 			fmt.Fprintln(os.Stderr, "bad scenario:", err)
 			os.Exit(2)
 		}
-		r := explore(&s, *mode, *budget, *pb, *spurious, *seed, *maxHist)
+		scn := s
+		r := explore.Explore(s.ID, len(s.Threads), func(st gate.Strategy, sp int) (explore.HistRec, *gate.Sched, gate.Outcome) {
+			return runOnce(&scn, st, sp)
+		}, s.Scheds, *mode, *budget, *pb, *spurious, *seed, *maxHist)
 		b, _ := json.Marshal(r)
 		w.Write(b)
 		w.WriteByte('\n')
